@@ -139,7 +139,7 @@ SUBS = {"pixels": sub_pixels, "groups": sub_groups}
 
 
 @st.composite
-def pixel(draw, nt, dtype, kind=None):
+def pixel(draw, nt, dtype, kind=None, win=None):
     """One pixel of length nt: returns (values list, tag)."""
     kind = kind or draw(st.sampled_from(["ordinary", "ordinary", "lowvar", "lowvar", "outliers", "bad", "zeros90"]))
     if kind == "zeros90" and nt >= 10:
@@ -178,8 +178,19 @@ def pixel(draw, nt, dtype, kind=None):
     # outliers relative to the mean
     nout = draw(st.sampled_from([0, 1, 1, 2, 3])) if kind != "ordinary" else draw(st.sampled_from([0, 0, 1]))
     mean = max(sum(vals) / len(vals), 1e-6)
-    for q in draw(st.lists(st.integers(0, nt - 1), min_size=nout, max_size=nout, unique=True)):
-        r = draw(st.sampled_from([1e-300, 1e-30, 1e-6, 1e-3, 0.5, 0.9, 1.002, 1.01, 1.1, 2.0, 10.0, 1e3, 1e6]))
+    outside = [q for q in range(nt) if win is not None and not (win[0] <= q < win[1])]
+    # an outlier inside the calibration window changes the fit itself; extreme indices need outliers outside it
+    pool = st.sampled_from(outside) if outside and draw(st.integers(0, 3)) > 0 else st.integers(0, nt - 1)
+    for q in draw(st.lists(pool, min_size=min(nout, len(outside)) if outside else nout, max_size=nout, unique=True)):
+        if kind == "lowvar" and draw(st.booleans()):
+            # k-sigma outliers: for a near-normal (large shape) pixel the index is about 1000*k, so |k| in 33..38 sits in the band
+            # where the index is finite but beyond int16 (must saturate, not wrap), and |k| > 38.5 gives -inf
+            sd = max(float(np.std(np.array(vals))), 0.5)
+            k = draw(st.sampled_from([-100, -40, -38, -37, -36, -35, -34, -33, -32, -10, -5, 5, 8, 9, 33, 40]))
+            v = max(mean + k * sd, 0.0)
+            vals[q] = float(round(v)) if dtype == "int16" else float(v)
+            continue
+        r = draw(st.sampled_from([1e-300, 1e-250, 1e-200, 1e-150, 1e-100, 1e-30, 1e-6, 1e-3, 0.5, 0.9, 1.002, 1.01, 1.1, 2.0, 10.0, 1e3, 1e6]))
         v = mean * r
         if dtype == "int16":
             v = float(min(32767, max(0, round(v))))
@@ -220,12 +231,12 @@ def cube_case(draw, nmax):
     nd = draw(st.sampled_from([-9999, -32768]))
     c0 = draw(st.integers(0, nt - 3))
     c1 = draw(st.integers(c0 + 3, nt))
-    if draw(st.booleans()):
+    if draw(st.integers(0, 2)) == 0:
         c0, c1 = 0, nt
     npx = draw(st.sampled_from([1, 1, 2, 3, 4]))
     px, tags = [], []
     for _ in range(npx):
-        vals, tag = draw(pixel(nt, dtype))
+        vals, tag = draw(pixel(nt, dtype, win=(c0, c1)))
         if vals is None:
             vals = _bad(tag, nt, float(nd), (c0, c1), draw)
         elif tag != "zeros90":
@@ -252,7 +263,7 @@ def group_case(draw):
         c0 = draw(st.integers(0, per - 3))
         c1 = draw(st.integers(c0 + 3, per))
         wins.append([c0, c1])
-        vals, tag = draw(pixel(per, dtype))
+        vals, tag = draw(pixel(per, dtype, win=(c0, c1)))
         if vals is None:
             vals = _bad(tag, per, float(nd), (c0, c1), draw)
         tags.append(tag)
